@@ -57,9 +57,16 @@ DoVersion ==
 Core ==
   \/ (Profile = "imm" /\ (DoAllocate \/ DoWrite \/ DoClose \/ DoAbort \/ DoSetFree))
   \/ (Profile = "mut" /\ DoRTW)
+\* restart with the other readonly_storage setting (a server that already holds shares becomes read-only)
+DoReconfigure ==
+  /\ Step("Reconfigure", "", Incoming(S), Reconfigure(S, ~S.readonly))
+  /\ advlast' = [advlast EXCEPT !.op = "other"]
+  /\ closedOK' = closedOK \ Incoming(S)
+  /\ UNCHANGED <<adv, nw, acked>>
+
 NextM ==
   \/ ((IF AllOps THEN Next ELSE Core) /\ UNCHANGED adv /\ advlast' = [advlast EXCEPT !.op = "other"])
-  \/ DoAdvise \/ DoReaderAdvise \/ DoVersion
+  \/ DoAdvise \/ DoReaderAdvise \/ DoVersion \/ DoReconfigure
 
 SpecM == InitM /\ [][NextM]_mvars
 
@@ -94,6 +101,13 @@ VER_AdvertisedIsAllocatable ==
   \A si \in SIsI : \A sh \in Shares : AdvertisedIsAllocatable(S, VersionRes(S), si, sh)
 VER_NoOverAdvertise == NoOverAdvertise(S, VersionRes(S))
 VER_RangeOK == VersionAvailOK(S, VersionRes(S).avail)
+\* a restart with another setting keeps every completed share, every lease and every advisory
+CFG_RestartKeepsShares ==
+  [][last'.op = "Reconfigure" =>
+       /\ adv' = adv
+       /\ \A si \in SIsI : \A sh \in Shares : S.imm[si][sh].st = "final" => S'.imm[si][sh] = S.imm[si][sh]
+       /\ S'.mut = S.mut
+       /\ Incoming(S') = {}]_mvars
 \* asking for the version changes nothing
 VER_ReadOnlyCall == [][advlast'.op = "Version" => S' = S]_mvars
 =============================================================================
